@@ -255,9 +255,10 @@ def reps(iso):
 _ORDERS = [("p", "l", "t"), ("p", "t", "l"), ("l", "p", "t"), ("l", "t", "p"), ("t", "p", "l"), ("t", "l", "p")]
 
 
-def convert_clone(iso, tgt):
-    """A clone of `iso` converted to the target representation (and optionally through JSON)."""
-    c = K.clone_point(iso)
+def convert_clone(iso, tgt, inplace=False):
+    """A clone of `iso` converted to the target representation (and optionally through JSON). With inplace=True the
+    object itself - which may already have been analysed, so its caches are filled - is converted."""
+    c = iso if inplace else K.clone_point(iso)
     for step in _ORDERS[tgt.get("order", 0) % 6]:
         if step == "p":
             c.convert_pressure(mode_to=tgt["p"][0], unit_to=tgt["p"][1])
@@ -381,7 +382,9 @@ def target(draw, abs_only=False, bases=None, json_share=4):
     pool = L_TARGETS if bases is None else [r for r in L_TARGETS if r[0] in bases]
     loading = draw(st.sampled_from(pool))
     return {"p": list(p), "l": list(loading), "t": draw(st.sampled_from(["K", "°C"])),
-            "order": draw(st.integers(0, 5)), "json": draw(st.sampled_from([False] * (json_share - 1) + [True]))}
+            "order": draw(st.integers(0, 5)), "json": draw(st.sampled_from([False] * (json_share - 1) + [True])),
+            # analyse first, then convert THE SAME object in place and analyse again (caches filled by the first analysis)
+            "inplace": draw(st.sampled_from([False, False, True]))}
 
 
 def _log_uniform(lo, hi):
@@ -519,13 +522,28 @@ def run_pair(ctx, desc, entry, what, iso, run, norm, label_extra=(), scale_ok=Tr
     """run(iso, role) -> raw result (or raises CalculationError), role in 'orig' | 'conv' | 'scaled';
     norm(raw, iso) -> fields."""
     tgt = desc["tgt"]
-    conv = convert_clone(iso, tgt)
+    inplace = bool(tgt.get("inplace")) and not tgt.get("json")
     outcomes = []
-    for obj, role in ((iso, "orig"), (conv, "conv")):
+    if inplace:
+        ctx.label("converted_in_place_after_analysis")
+        analysed = iso
+        iso = K.clone_point(analysed)  # an untouched copy in the original representation (labels for norm / scaling)
         try:
-            outcomes.append(("ok", run(obj, role)))
+            outcomes.append(("ok", run(analysed, "orig")))
         except CalculationError as e:
             outcomes.append(("refused", str(e)[:120]))
+        conv = convert_clone(analysed, tgt, inplace=True)
+        try:
+            outcomes.append(("ok", run(conv, "conv")))
+        except CalculationError as e:
+            outcomes.append(("refused", str(e)[:120]))
+    else:
+        conv = convert_clone(iso, tgt)
+        for obj, role in ((iso, "orig"), (conv, "conv")):
+            try:
+                outcomes.append(("ok", run(obj, role)))
+            except CalculationError as e:
+                outcomes.append(("refused", str(e)[:120]))
     if outcomes[0][0] != outcomes[1][0]:
         raise Violation(f"{what}: original isotherm {outcomes[0][0]}, converted clone ({tgt['p']}, {tgt['l']}, "
                         f"{tgt['t']}) {outcomes[1][0]}: {[o[1] for o in outcomes if o[0] == 'refused'][0]}",
@@ -1308,7 +1326,9 @@ def check_isosteric(desc, ctx):
     if not 1.05 * max(mins) < 0.95 * min(maxs):
         ctx.label("no_common_loading_range_skipped")
         return
-    convs = [convert_clone(i, t) for i, t in zip(isos, tgts)]
+    inplace = bool(tgts[0].get("inplace")) and not any(t.get("json") for t in tgts)
+    labels_of = [K.clone_point(i) for i in isos] if inplace else isos
+    convs = None if inplace else [convert_clone(i, t) for i, t in zip(isos, tgts)]
     what = (f"isosteric_enthalpy({'BAX 1500 samples ' + str(desc['members']) if desc['kind'] == 'sample' else desc['gas']}"
             f" stored {[reps(i) for i in isos]})")
 
@@ -1316,7 +1336,13 @@ def check_isosteric(desc, ctx):
         return isosteric_enthalpy(group)
 
     outcomes = []
-    for g in (isos, convs):
+    for k in (0, 1):
+        if k == 1 and inplace:
+            # the same, already analysed objects are converted in place
+            ctx.label("converted_in_place_after_analysis")
+            convs = [convert_clone(i, t, inplace=True) for i, t in zip(isos, tgts)]
+            isos = labels_of
+        g = isos if k == 0 else convs
         try:
             outcomes.append(("ok", run(g)))
         except CalculationError as e:
